@@ -1,5 +1,18 @@
+import os
+import subprocess
 from . import search as S
 from . import common as C
+
+
+def rerun_big(src, text, timeout=40):
+    """the real engine on one case with 50x the step budget, alone: 'OK …', 'DIVERGE', 'TIMEOUT', 'PANIC …'"""
+    exe = os.path.join(C.BIN, "vharness")
+    try:
+        o = subprocess.run([exe, "one", "runbig", "raw:x" + src.hex(), "raw:x" + text.hex()], stdout=subprocess.PIPE,
+                           stderr=subprocess.DEVNULL, text=True, timeout=timeout).stdout.strip()
+    except subprocess.TimeoutExpired:
+        return "TIMEOUT"
+    return C.fields(o).get("RES", o[:60])
 
 
 def run(ctx, spec):
@@ -8,9 +21,24 @@ def run(ctx, spec):
     mism, counters, samples = S.compare_run(ctx, cases, impl, model, S.ALL_FIELDS,
                                             "result differs from the VM model", treat_budget_as_ok=False)
     mism = [m for m in mism if not (m["impl"] in ("DIVERGE", "HANG") and m["model"] == "DIVERGE")]
+    # the step budgets of the two sides are not comparable (the harness counts the steps of the whole Run, the model
+    # bounds each attempt), and a search with exponential backtracking is long, not endless: a DIVERGE of the real
+    # engine where the model answered is decided by running that case alone with 50x the budget
+    kept, long_searches, reruns = [], 0, 0
+    for m in mism:
+        if m["impl"] == "DIVERGE" and m["model"].startswith("OK") and reruns < 3:
+            reruns += 1
+            big = rerun_big(m["src"], m["text"])
+            if big.strip() == m["model"].strip():
+                long_searches += 1
+                continue
+            m = dict(m, impl="DIVERGE; with 50x the budget: " + big[:200],
+                     what="the search does not end within 20M steps (or ends with a different result) where the model answers")
+        kept.append(m)
+    mism = kept
     # (a') the theorem's own criterion: where C10_terminates_guardedB applies to every search command of the program
     # (GUARD k/k printed by the driver), the real engine must return — whatever the VM model did on that case
-    guarded_cases = recursive_cases = 0
+    guarded_cases = recursive_cases = inconclusive = 0
     for cid, cline in cases.items():
         parts = cline.split("\t")
         if parts[0] != "run" or model.get(cid) is None:
@@ -27,11 +55,28 @@ def run(ctx, spec):
         ires = C.fields(il).get("RES", il.split("\t")[0])
         if ires in ("DIVERGE", "HANG") or il in ("HANG", "CRASH"):
             src, text = C.unhex(parts[1]), C.unhex(parts[2])
+            if C.fields(model[cid]).get("RES") == "DIVERGE":
+                # the model, which takes the same steps, does not finish within its budget either: a long
+                # (exponential) search; inconclusive, counted
+                inconclusive += 1
+                continue
+            # budget exceeded is not yet non-termination: decide with the large budget (a few cases; many
+            # divergences are systematic and reported as they are)
+            big = "not re-run"
+            if reruns < 3:
+                reruns += 1
+                big = rerun_big(src, text)
+            if big.startswith("OK"):
+                long_searches += 1
+                continue
+            il = il[:100] + " ; with 50x the budget: " + big[:100]
             ctx.violation("failing-input", "the search does not terminate although the program has no unguarded recursion "
                           "(guardedB holds, C10_terminates_guardedB applies)",
                           dict(case_id=cid, source=src.decode("latin1"), text=text.decode("latin1"), text_hex=text.hex(),
                                implementation=il[:200]), key=S.case_key(src, text))
-    counters.update(programs_with_subroutines=recursive_cases, guarded_by_criterion=guarded_cases)
+    counters.update(programs_with_subroutines=recursive_cases, guarded_by_criterion=guarded_cases,
+                    long_searches_decided_with_large_budget=long_searches,
+                    guarded_but_budget_exceeded_on_both_sides=inconclusive)
     # (b) the exhaustive enumeration of nullable nests
     nprog = ntext = nspec = 0
     max_steps = 0
